@@ -147,3 +147,15 @@ CHECKS["C20"] = {
         {"pkg": CLIENT, "run": "^TestVerif_C20_NoCrash$", "checks": {"quick": 3000, "thorough": 300000}, "shards": {"thorough": 8}},
     ],
 }
+
+CHECKS["C18"] = {
+    "level": "exploration",
+    "technique": "model-based testing: rapid-generated admin-API operation sequences (POST with any subset of fields and extreme values, malformed/mismatching requests, GET, list, DELETE, close/reopen, owner connects, usage upload) against a real bolt-backed manager; in-memory reference map compared through GET and list after every step",
+    "level_text": "After every operation each of the 4 UIDs is read back through GET and through the listing and compared field by field with the reference map (unset fields read as 0/null, rejected requests change nothing, deleted users are gone, state survives reopen); connect (userPanel.GetUser + GetSession) and usage upload (Manager.UploadStatus and userPanel.commitUpdate) are executed exactly as the server's goroutines call them, and a panic in Cloak code is a violation.",
+    "level_note": "Crash points inside a bolt transaction are not injected (bolt's own durability is trusted); the API is driven through APIRouter.ServeHTTP rather than through a tunnelled HTTP connection (that path is exercised in C07's admin-gate check).",
+    "rule": "rapid draws <=14 ops over 4 UIDs; values from {0,1,-1,2,100,2^31,-2^31,2^63-1,-2^63,now+-1,2^40} and [-1000,100000]; non-trivial = the sequence contains a partial update, a rejected request or a reopen; distinct = distinct scenarios.",
+    "assumptions": ["bbolt commits are atomic and durable"],
+    "jobs": [
+        {"pkg": SERVER, "run": "^TestVerif_C18_Store$", "checks": {"quick": 1200, "thorough": 120000}, "shards": {"thorough": 16}, "timeout": {"quick": 300}},
+    ],
+}
